@@ -24,11 +24,13 @@ import (
 	rangeplugin "github.com/coredhcp/coredhcp/plugins/range"
 	"github.com/insomniacslk/dhcp/dhcpv4"
 
+	"verifmc/checks/alloc"
 	"verifmc/checks/c16"
 	"verifmc/ev"
 	"verifmc/explore"
 	"verifmc/pkt"
 	"verifmc/reg"
+	"verifmc/sched"
 	"verifmc/srv"
 	"verifmc/verifsched"
 )
@@ -58,11 +60,12 @@ type Conf struct {
 }
 
 type Op struct {
-	Kind  string `json:"kind"`                  // discover | request | restart | age
-	MAC   string `json:"mac,omitempty"`         // hex chaddr (any length 0..16)
-	Host  string `json:"host,omitempty"`        // hex of option 12; "" = absent
-	Lease string `json:"lease,omitempty"`       // restart: lease time argument
-	Shift int    `json:"range_shift,omitempty"` // restart with the configured range moved by this many addresses
+	Kind  string `json:"kind"`                   // discover | request | restart | age
+	MAC   string `json:"mac,omitempty"`          // hex chaddr (any length 0..16)
+	Host  string `json:"host,omitempty"`         // hex of option 12; "" = absent
+	Lease string `json:"lease,omitempty"`        // restart: lease time argument
+	Shift int    `json:"range_shift,omitempty"`  // restart with the configured range moved by this many addresses
+	RO    bool   `json:"read_only_db,omitempty"` // restart with the lease database opened read-only (fault: it cannot be written any more)
 }
 
 type Case struct {
@@ -90,6 +93,7 @@ type Sys struct {
 	aged   map[string]bool // ghost: clients whose lease ran out since they were last answered
 	shift  int             // the range currently configured is conf's moved by this much
 	crash  bool            // evaluate the crash/restart oracle after every live op
+	ro     bool            // the lease database is read-only since the last restart (fault injected by the harness)
 }
 
 func ip2u(s string) uint32 { return binary.BigEndian.Uint32(net.ParseIP(s).To4()) }
@@ -146,7 +150,14 @@ func (s *Sys) Ops() []Op {
 		ops = append(ops, Op{Kind: "discover", MAC: m})
 		ops = append(ops, Op{Kind: "request", MAC: m, Host: hex.EncodeToString([]byte("h"))})
 	}
+	if s.ro {
+		// nothing written from here on can be expected on disk: only requests are explored
+		return ops
+	}
 	ops = append(ops, Op{Kind: "restart", Lease: s.conf.Lease})
+	if !s.conf.NoShift {
+		ops = append(ops, Op{Kind: "restart", Lease: s.conf.Lease, RO: true})
+	}
 	other := "1h"
 	if s.conf.Lease == "1h" {
 		other = "60s"
@@ -197,7 +208,7 @@ func (s *Sys) Key() string {
 		ag = append(ag, m)
 	}
 	sort.Strings(ag)
-	return fmt.Sprintf("recs=%v nbits=%d lease=%v ghost=%s expired=%v shift=%d", recs, len(d.Bits), d.LeaseTime, s.ghostKey(), ag, s.shift)
+	return fmt.Sprintf("recs=%v nbits=%d lease=%v ghost=%s expired=%v shift=%d ro=%v", recs, len(d.Bits), d.LeaseTime, s.ghostKey(), ag, s.shift, s.ro)
 }
 
 func (s *Sys) violate(prop, sig, what string) {
@@ -274,6 +285,23 @@ func (s *Sys) Apply(op Op, live bool) (obs string) {
 			class += "/edited-range-accepted"
 			return "restart-ok-edited-range"
 		}
+		if op.RO {
+			// environment fault: from now on the database cannot be written (SQLite URI mode=ro;
+			// the same happens with a read-only file or directory). Refusing to start is fine.
+			if err := s.setup(s.db+"?mode=ro", op.Lease); err != nil {
+				s.dead = true
+				class += "/read-only-refused"
+				return "restart-refused-read-only"
+			}
+			s.ro, s.lease = true, op.Lease
+			after := s.inst.VerifDump()
+			if live && (fmt.Sprint(before.Records) != fmt.Sprint(after.Records) || fmt.Sprint(before.Bits) != fmt.Sprint(after.Bits)) {
+				s.violate("C02", "restart-changes-bindings", fmt.Sprintf("bindings before restart on the read-only database %v bits %v, after %v bits %v", before.Records, before.Bits, after.Records, after.Bits))
+				s.violate("C03", "restart-changes-bindings", fmt.Sprintf("bindings before restart on the read-only database %v, after %v", before.Records, after.Records))
+			}
+			class += "/read-only-ok"
+			return "restart-ok-read-only"
+		}
 		err := s.setup(s.db, op.Lease)
 		if err != nil {
 			s.dead = true
@@ -330,6 +358,7 @@ func (s *Sys) Apply(op Op, live bool) (obs string) {
 		s.dead = true
 		if live {
 			s.violate("C02", "panic", "handler panicked: "+pan)
+			s.violate("C19", "range/panic", fmt.Sprintf("the range handler of an accepted configuration (read-only database: %v) panicked: %s", s.ro, pan))
 		}
 		return "PANIC"
 	}
@@ -399,7 +428,7 @@ func (s *Sys) Apply(op Op, live bool) (obs string) {
 		}
 		s.prom[op.MAC] = tBefore.Add(ltNow)
 	}
-	if live && s.crash {
+	if live && s.crash && !s.ro {
 		s.crashCheck()
 	}
 	return obs
@@ -557,6 +586,7 @@ func run(r *ev.Run, id string) {
 		runSched(r)
 	} else {
 		runCrashPoints(r)
+		runContention(r)
 	}
 }
 
@@ -662,10 +692,37 @@ func sweeps(r *ev.Run, id string) {
 	}
 }
 
+// Replay re-runs a stored history for the property named id.
+func Replay(r *ev.Run, id string, raw json.RawMessage) { replayCase(r, id, raw) }
+
 func replayCase(r *ev.Run, id string, raw json.RawMessage) {
 	var sc struct {
 		Scenario string `json:"scenario"`
 		Schedule []int  `json:"schedule"`
+	}
+	if json.Unmarshal(raw, &sc) == nil && strings.HasPrefix(sc.Scenario, "expiry/") {
+		for _, cs := range contentionScenarios(true) {
+			if "expiry/"+cs.Name != sc.Scenario {
+				continue
+			}
+			first := ""
+			for i := 0; i < 3; i++ {
+				ex, viols, eng := sched.ReplayOne(cs.scenario(r), sc.Schedule)
+				if eng != "" {
+					panic(eng)
+				}
+				if i == 0 {
+					first = ex.Outcome
+					fmt.Printf("  scenario %s schedule %v\n  outcome: %s\n", sc.Scenario, sc.Schedule, ex.Outcome)
+					for _, v := range viols {
+						r.Violate(id+"/sched/"+sc.Scenario+"/"+v.Sig, v.What, map[string]interface{}{"scenario": sc.Scenario, "schedule": sc.Schedule})
+					}
+				} else if ex.Outcome != first {
+					panic("replay is not deterministic: " + ex.Outcome + " vs " + first)
+				}
+			}
+		}
+		return
 	}
 	if json.Unmarshal(raw, &sc) == nil && sc.Scenario != "" {
 		c16.ReplaySchedule(r, id, sc.Scenario, sc.Schedule)
@@ -780,4 +837,192 @@ func preLeaseHandler() handler.Handler4 {
 		preLeaseH = h
 	})
 	return preLeaseH
+}
+
+// ReadOnlyDB explores, for the property named id, every history of up to n requests before and
+// after a restart on a lease database that has become read-only (fault injection; a start-up
+// error is accepted). Oracles are those of Apply (for C19: the handler never panics).
+func ReadOnlyDB(r *ev.Run, id string, n int) {
+	conf := Conf{Start: "10.0.0.10", End: "10.0.0.11", Lease: "60s", NoShift: true, MACs: []string{"020000000a01", "020000000b02", "020000000c03"}}
+	var alpha []Op
+	for _, m := range conf.MACs {
+		alpha = append(alpha, Op{Kind: "discover", MAC: m}, Op{Kind: "request", MAC: m, Host: hex.EncodeToString([]byte("h"))})
+	}
+	var rec func(hist []Op, roAt int)
+	rec = func(hist []Op, roAt int) {
+		if roAt >= 0 && len(hist) > roAt+1 {
+			s := NewSys(r, id, conf, false)
+			for i, op := range hist {
+				s.Apply(op, i == len(hist)-1)
+				if s.Terminal() {
+					break
+				}
+			}
+			s.Close()
+			r.Add("read_only_db_histories", 1)
+		}
+		if roAt < 0 && len(hist) < n {
+			rec(append(append([]Op{}, hist...), Op{Kind: "restart", Lease: conf.Lease, RO: true}), len(hist))
+		}
+		if (roAt < 0 && len(hist) < n) || (roAt >= 0 && len(hist) < roAt+1+n) {
+			for _, op := range alpha {
+				rec(append(append([]Op{}, hist...), op), roAt)
+			}
+		}
+	}
+	rec(nil, -1)
+}
+
+// ---- stored expiry under lock contention (C03, engine E2 with a virtual clock) ------------
+//
+// Two or three requests race for the range plugin's mutex under the cooperative scheduler. The
+// instrumented plugin reads the clock through verifsched.Now: running code takes no virtual
+// time, every wait for a lock takes waitCost. After each schedule the plugin is started on a
+// copy of the database and the stored expiry of every client must not be earlier than the end
+// of the lease most recently promised to it: (virtual time when its handler returned) + lease
+// time, minus the store's one second and minus a real-time tolerance that is small against
+// waitCost and far above any execution time of a handler.
+
+const (
+	waitCost      = 10 * time.Minute
+	realTolerance = 5 * time.Minute
+)
+
+type contScen struct {
+	Name    string
+	Pre     []Op
+	Threads []Op
+}
+
+func contentionScenarios(thorough bool) []contScen {
+	a, b := "020000000a01", "020000000b02"
+	h := hex.EncodeToString([]byte("h"))
+	out := []contScen{
+		{"new||new", nil, []Op{{Kind: "discover", MAC: a}, {Kind: "discover", MAC: b}}},
+		{"renew||new", []Op{{Kind: "discover", MAC: a}}, []Op{{Kind: "request", MAC: a, Host: h}, {Kind: "discover", MAC: b}}},
+		{"renew||renew", []Op{{Kind: "discover", MAC: a}, {Kind: "discover", MAC: b}}, []Op{{Kind: "request", MAC: a}, {Kind: "request", MAC: b, Host: h}}},
+		{"same-client-twice", nil, []Op{{Kind: "discover", MAC: a}, {Kind: "request", MAC: a}}},
+	}
+	if thorough {
+		out = append(out,
+			contScen{"new||new||new", nil, []Op{{Kind: "discover", MAC: a}, {Kind: "discover", MAC: b}, {Kind: "discover", MAC: "020000000c03"}}},
+			contScen{"renew||renew||new", []Op{{Kind: "discover", MAC: a}, {Kind: "discover", MAC: b}}, []Op{{Kind: "request", MAC: a}, {Kind: "request", MAC: b}, {Kind: "discover", MAC: "020000000c03"}}},
+		)
+	}
+	return out
+}
+
+func (cs contScen) scenario(r *ev.Run) sched.Scenario {
+	conf := Conf{Start: "10.0.0.10", End: "10.0.0.13", Lease: "60s"}
+	lt := 60 * time.Second
+	return sched.Scenario{Name: "expiry/" + cs.Name, Setup: func(run *verifsched.Run) func(*verifsched.Run) sched.Exec {
+		run.WaitCost = waitCost
+		db := filepath.Join(srv.Scratch(), fmt.Sprintf("lease-cont-%d.sqlite", seq.Add(1)))
+		h, err := rangeplugin.Plugin.Setup4(db, conf.Start, conf.End, conf.Lease)
+		if err != nil {
+			panic(err)
+		}
+		inst := rangeplugin.VerifInstance(db)
+		rangeplugin.VerifForget(db)
+		call := func(op Op) (*dhcpv4.DHCPv4, time.Time) {
+			req, err := dhcpv4.FromBytes(buildReq(op))
+			if err != nil {
+				panic(err)
+			}
+			resp, _ := dhcpv4.NewReplyFromRequest(req)
+			out, _ := h(req, resp)
+			return out, verifsched.Now()
+		}
+		for _, op := range cs.Pre {
+			call(op)
+		}
+		type res struct {
+			replied bool
+			ret     time.Time
+			ip      string
+		}
+		results := make([]res, len(cs.Threads))
+		for i, op := range cs.Threads {
+			i, op := i, op
+			run.Spawn(fmt.Sprintf("t%d:%s(%s)", i, op.Kind, op.MAC), func() {
+				defer reg.OpBegin(fmt.Sprintf("contention scenario %s: thread %d", cs.Name, i))()
+				out, ret := call(op)
+				if out != nil {
+					results[i] = res{true, ret, out.YourIPAddr.String()}
+				}
+			})
+		}
+		return func(run *verifsched.Run) sched.Exec {
+			var ex sched.Exec
+			defer func() {
+				os.Remove(db)
+				os.Remove(db + "-journal")
+			}()
+			if inst.VerifLocked() {
+				ex.Outcome = "lock-left-held"
+				return ex
+			}
+			inst.VerifClose()
+			h2, err := rangeplugin.Plugin.Setup4(db, conf.Start, conf.End, conf.Lease)
+			if err != nil {
+				ex.Violations = append(ex.Violations, sched.Viol{Sig: "restart-fails", What: err.Error()})
+				return ex
+			}
+			_ = h2
+			inst2 := rangeplugin.VerifInstance(db)
+			rangeplugin.VerifForget(db)
+			defer inst2.VerifClose()
+			promised := map[string]time.Time{}
+			for i, op := range cs.Threads {
+				if results[i].replied {
+					end := results[i].ret.Add(lt)
+					if end.After(promised[op.MAC]) {
+						promised[op.MAC] = end
+					}
+				}
+			}
+			var macs []string
+			for m := range promised {
+				macs = append(macs, m)
+			}
+			sort.Strings(macs)
+			out := fmt.Sprintf("waits=%d", run.Waits)
+			for _, m := range macs {
+				exp := int64(inst2.VerifExpiry(net.HardwareAddr(mustHex(m)).String()))
+				min := promised[m].Add(-time.Second - realTolerance).Unix()
+				late := "ok"
+				if exp < min {
+					late = "early"
+					ex.Violations = append(ex.Violations, sched.Viol{Sig: "expiry-too-early-after-lock-wait", What: fmt.Sprintf("client %s: stored expiry %d is %d s earlier than the end of the lease promised by the reply that left at virtual time %d (+%v lease); %d lock waits of %v each", m, exp, promised[m].Unix()-exp, promised[m].Add(-lt).Unix(), lt, run.Waits, waitCost)})
+				}
+				out += " " + m + "=" + late
+			}
+			ex.Outcome = out
+			return ex
+		}
+	}}
+}
+
+func runContention(r *ev.Run) {
+	if os.Getenv("VERIF_SCHED") != "1" {
+		r.Capped("lock-contention expiry scenarios skipped: binary not built with the instrumentation overlay")
+		return
+	}
+	bound, budget := 1, 60*time.Second
+	if !r.Quick() {
+		bound, budget = 2, 5*time.Minute
+	}
+	for _, cs := range contentionScenarios(!r.Quick()) {
+		res := sched.Explore(cs.scenario(r), bound, budget)
+		waited := false
+		for o := range res.Outcomes {
+			if !strings.HasPrefix(o, "waits=0") {
+				waited = true
+			}
+		}
+		if !waited && len(res.Found) == 0 {
+			panic("E2 engine error in " + res.Scenario + ": no schedule made a request wait for the plugin lock")
+		}
+		alloc.ReportSched(r, "C03", res, map[string]interface{}{"pre": cs.Pre, "threads": cs.Threads, "virtual_wait_cost": waitCost.String()})
+	}
 }
